@@ -667,6 +667,8 @@ var spec = &hx.Spec[Case]{
 	},
 	Gen: genCase,
 	Run: run,
+	// a case that never returns is a verdict (confirmed by a replay in a fresh process), not a timeout of the run
+	Watchdog: hx.Pick(120*time.Second, 300*time.Second),
 }
 
 func TestMain(m *testing.M) { hx.Main(m) }
